@@ -486,6 +486,13 @@ class Monitor:
                 if acc.get("genuine") and sel_name not in holders:
                     self.flag("honest-exchange:keys-differ",
                               f"the selected peer's own answer was accepted but it holds different keys: {tag}")
+                elif getattr(self, "benign", False) and sel_name not in holders:
+                    # all participants honest, datagram contents untouched (only lost / repeated / late): every hop
+                    # the originator lists is the outcome of honest exchanges, so its two ends must agree
+                    self.flag("honest-network:keys-differ",
+                              f"every node is honest and the network only lost, repeated or delayed datagrams, yet the "
+                              f"selected peer does not hold the keys the originator accepted (holders: "
+                              f"{sorted(holders)}): {tag}")
                 acc["holders"] = sorted(holders)
 
     @staticmethod
@@ -930,6 +937,16 @@ class Interceptor:
 # one execution
 # ---------------------------------------------------------------------------------------------------------------------
 
+def _benign(m: dict) -> bool:
+    """The network only loses, repeats or delays datagrams (contents untouched) and every participant is honest."""
+    if m["site"] in ("sched", "app", "history"):
+        return True
+    if m["site"] in ("link0", "enc", "req0", "reqenc") and m["op"] in ("drop", "dup", "delay", "late", "abandoned"):
+        when = tuple(m.get("when", ()))
+        return not (len(when) > 1 and when[1] == "fixid")     # a rewritten identifier is a content change
+    return False
+
+
 def _restrict(w: TunnelWorld, h: int, spare: bool, free_exit: bool = False) -> None:
     """free_exit (spare worlds, h >= 2): the last relay offers two exits [X, S]; the originator has no required exit."""
     first = [PATHS[h][0]] if h > 1 else []
@@ -998,7 +1015,13 @@ def run_one(scn: tuple, plan: list[dict], seed: int):  # noqa: ANN201
     roles = dict(BASE_ROLES)
     if spare:
         roles.update(SPARE_ROLES)
-    w = TunnelWorld(("c08", seed, h, ncirc, spare), roles, key_offset=seed)
+    crowd = next((m for m in plan if m["site"] == "app" and m["op"] == "crowd"), None)
+    if crowd is not None:
+        # a populated overlay (all honest): `relays` relay-only members and `exits` further exit nodes, all of them
+        # candidates of every path node (the candidate lists of the handshake are capped at 4 + 4 entries)
+        roles.update({f"M{i + 1}": RELAY for i in range(crowd["relays"])})
+        roles.update({f"E{i + 1}": EXIT_BT for i in range(crowd["exits"])})
+    w = TunnelWorld(("c08", seed, h, ncirc, spare, repr(crowd)), roles, key_offset=seed)
     try:
         hist = next((m for m in plan if m["site"] == "history"), None)
         if hist is not None:
@@ -1006,6 +1029,7 @@ def run_one(scn: tuple, plan: list[dict], seed: int):  # noqa: ANN201
         t0 = w.loop.time()
         adv = Adversary(w, seed)
         mon = Monitor(w, adv)
+        mon.benign = all(_benign(m) for m in plan)
         icp = Interceptor(w, scn, plan, mon, adv)
         if any(m["site"] == "sched" for m in plan):
             _batch_delivery(w, icp)
@@ -1013,7 +1037,14 @@ def run_one(scn: tuple, plan: list[dict], seed: int):  # noqa: ANN201
         exit_peer = w.peer_of("O", "X")
         app = next((m for m in plan if m["site"] == "app"), None)
         free_exit = bool(app and app.get("free_exit"))
-        _restrict(w, h, spare, free_exit)
+        if crowd is None:
+            _restrict(w, h, spare, free_exit)
+        else:
+            # the originator is held to the forced path; the other path nodes know the whole population
+            population = [n for n in w.nodes if n[0] in "ME"]
+            w.restrict("O", [PATHS[h][0], "X"])
+            for j, n in enumerate(PATHS[h][:-1]):
+                w.restrict(n, [PATHS[h][j + 1], *population])
         circuits = []
         for _ in range(ncirc):
             if free_exit:
@@ -1026,8 +1057,10 @@ def run_one(scn: tuple, plan: list[dict], seed: int):  # noqa: ANN201
             if c is None:
                 return [("honest:create_circuit-refused" if hist is not None else "harness:create_circuit-refused", f"{scn} plan={_show(plan)}: the originator could not start the circuit")], None, {}
             circuits.append(c)
-        if app is not None:
+        if app is not None and app["op"] == "waiter":
             _start_waiter(w, mon, icp, circuits[0], app)
+        elif app is not None:
+            icp.applied.append(f"app:{app['op']}")
         w.flush()
         honest = all(m["site"] in ("sched", "history", "app") for m in plan)
         if honest:
@@ -1427,6 +1460,25 @@ def build_jobs(thorough: bool, seed: int) -> tuple[list, dict]:
                     if tuple(m["when"]) == ("sends", 0):
                         jobs.append((scn, [m, wt, sched]))
                         n_app += 1
+        if ncirc == 1 and not spare and h >= 2:
+            # populated overlays: 0..6 relay-only members x 0..3 further exits next to the forced path (the candidate
+            # lists of the handshake hold at most 4 relays + 4 exits: below, at and above the cap)
+            for nr in ((0, 3, 4, 5, 6) if not thorough else range(7)):
+                for ne in ((0, 3) if not thorough else range(4)):
+                    if nr + ne + 5 <= 12 and (nr or ne):
+                        jobs.append((scn, [{"site": "app", "op": "crowd", "relays": nr, "exits": ne}]))
+                        n_app += 1
+        if ncirc == 1 and spare:
+            # no required exit: the last relay offers two exits [X, S], so a retry for the LAST position goes to the other
+            # candidate; every lost, late or duplicated datagram of the build (the late answer of the first candidate
+            # arrives while the second one is being asked)
+            free = {"site": "app", "op": "free", "free_exit": True}
+            jobs.append((scn, [free]))
+            n_app += 1
+            for m in singles:
+                if m["op"] in ("drop", "late", "dup"):
+                    jobs.append((scn, [m, free]))
+                    n_app += 1
         n_hist = 0
         if ncirc == 1 and not spare:
             for removal, reintro, where in (("none", "all", "all"), ("foreign", "all", "all"), ("foreign", "O", "all"),
